@@ -18,17 +18,18 @@ import (
 
 // Reader reads from command or standard input
 type Reader struct {
-	pusher   func([]byte) bool
-	executor *util.Executor
-	eventBox *util.EventBox
-	delimNil bool
-	event    int32
-	finChan  chan bool
-	mutex    sync.Mutex
-	killed   bool
-	termFunc func()
-	command  *string
-	wait     bool
+	pusher    func([]byte) bool
+	executor  *util.Executor
+	eventBox  *util.EventBox
+	delimNil  bool
+	event     int32
+	finChan   chan bool
+	mutex     sync.Mutex
+	killed    bool
+	termFunc  func()
+	tempFiles []string
+	command   *string
+	wait      bool
 }
 
 // NewReader returns new Reader object
@@ -43,6 +44,7 @@ func NewReader(pusher func([]byte) bool, eventBox *util.EventBox, executor *util
 		sync.Mutex{},
 		false,
 		func() { os.Stdin.Close() },
+		nil,
 		nil,
 		wait}
 }
@@ -94,11 +96,17 @@ func (r *Reader) terminate() {
 		r.termFunc()
 		r.termFunc = nil
 	}
+	// The process may exit before restart() gets to remove them
+	removeFiles(r.tempFiles)
+	r.tempFiles = nil
 	r.mutex.Unlock()
 }
 
 func (r *Reader) restart(command commandSpec, environ []string, readyChan chan bool) {
 	r.event = int32(EvtReady)
+	r.mutex.Lock()
+	r.tempFiles = command.tempFiles
+	r.mutex.Unlock()
 	r.startEventPoller()
 	success := r.readFromCommand(command.command, environ, func() {
 		readyChan <- true
